@@ -4,16 +4,29 @@
 //! signatures by a certificate of a local openssl CA) over generated sets of claim assertions, and
 //! then every component is mutated: a referenced hash, a referenced URL, a duplicated reference,
 //! the hard-binding reference removed, `sig_type`, payload changed after signing, signature bytes,
-//! `pad1` / `pad2`; with and without the CAWG signer's CA on the CAWG trust list.
+//! the certificate chain removed from the COSE headers, `pad1` / `pad2`; with and without the CAWG
+//! signer's CA on the CAWG trust list.
 //!
-//!   C33 vpc refs= claim= sigtype= pad1= pad2= sig= sigentries=
+//!   C33 vpc refs= claim= sigtype= pad1= pad2= sig= sigraw=
 //!        `IdentityAssertion::validate_partial_claim` (hook)        -> ok|err log=<entries>
 //!   C33 e2e (same) rest=<entries of the C2PA checks>
 //!        Builder with a harness `DynamicAssertion` + Reader        -> <state> log=<cawg.* entries>
+//!   C33 e2ei (same) iuri=<ingredient assertion URI | -> A= D=<results before post-validation>
+//!        asset B with the identity-carrying asset A as an ingredient (or A itself, `iuri=-`), read
+//!        with `core.decode_identity_assertions=false`, then
+//!        `Reader::post_validate_async(&CawgValidator)`               -> <state> A= D=<results after>
+//!   C33 remap c=<code>   (model only; compared with the codes the run observed)
+//!
+//! `sig=` / `sigraw=` (how the COSE part ends and which C2PA codes the profile / trust checks log)
+//! are measured by running the shared `crypto::cose::Verifier` directly on the same signature and
+//! payload (and cross-checked against what the mutation was built to cause); what the identity code
+//! does with them — remap, additional codes, result, where the statuses land — is what is compared.
 //!
 //! Oracle (on the implementation): an unmodified assertion validates (`cawg.identity.well-formed`);
 //! every mutation is reported with a `cawg.*` failure code; no `cawg.*` failure makes the manifest
-//! Invalid (classes `cawg-change-unreported`, `cawg-failure-invalidates-manifest`).
+//! Invalid, whether the assertion sits in the active manifest or in an ingredient's manifest
+//! (classes `cawg-change-unreported`, `cawg-failure-invalidates-manifest` (cawg.identity.* codes,
+//! F13), `cawg-x509-failure-invalidates-manifest` (signature / credential codes)).
 #[path = "../pki.rs"]
 mod pki;
 
@@ -23,11 +36,14 @@ use std::{
 };
 
 use c2pa::{
+    crypto::cose::{parse_cose_sign1, CertificateTrustPolicy, CoseError, Verifier},
     dynamic_assertion::{DynamicAssertion, DynamicAssertionContent, PartialClaim},
-    identity::{builder::CredentialHolder, x509::X509CredentialHolder, SignerPayload},
+    identity::{builder::CredentialHolder, validator::CawgValidator, x509::X509CredentialHolder, SignerPayload},
     status_tracker::{LogKind, StatusTracker},
+    validation_results::{StatusCodes, ValidationResults},
     Builder, Context, HashedUri, Reader, Signer, SigningAlg,
 };
+use coset::TaggedCborSerializable;
 use pki::{Cred, Pki};
 use vh::common::{fixtures, guarded, hex, main_with, scratch, Rng, Run};
 use vh::sign::definition;
@@ -47,12 +63,13 @@ enum Mutn {
     PayloadAfterSign, // referenced hash changed after signing (signature no longer covers the payload) … but claim kept in step
     SigFlip,        // a byte of the COSE signature value flipped
     SigGarbage,     // signature is not COSE
+    SigNoCerts,     // valid COSE_Sign1 whose certificate chain (x5chain) was removed from the headers
     Pad1,           // non-zero byte in pad1
     Pad2,           // non-zero byte in pad2
     RolesAfterSign, // role added to the payload after signing
 }
 
-const ALL: [Mutn; 12] = [
+const ALL: [Mutn; 13] = [
     Mutn::None,
     Mutn::RefHash,
     Mutn::RefUrlUnknown,
@@ -62,6 +79,7 @@ const ALL: [Mutn; 12] = [
     Mutn::PayloadAfterSign,
     Mutn::SigFlip,
     Mutn::SigGarbage,
+    Mutn::SigNoCerts,
     Mutn::Pad1,
     Mutn::Pad2,
     Mutn::RolesAfterSign,
@@ -147,6 +165,19 @@ fn make(holder: &X509CredentialHolder, claim: &[HashedUri], pick: &[usize], m: M
             signature = rng.bytes(n);
             sig = "parse";
         }
+        Mutn::SigNoCerts => {
+            let mut s1 = coset::CoseSign1::from_tagged_slice(&signature).ok()?;
+            let is_chain = |l: &coset::Label| *l == coset::Label::Int(33) || *l == coset::Label::Text("x5chain".into());
+            let before = s1.protected.header.rest.len() + s1.unprotected.rest.len();
+            s1.protected.header.rest.retain(|(l, _)| !is_chain(l));
+            s1.unprotected.rest.retain(|(l, _)| !is_chain(l));
+            if before == s1.protected.header.rest.len() + s1.unprotected.rest.len() {
+                return None;
+            }
+            s1.protected.original_data = None;
+            signature = s1.to_tagged_vec().ok()?;
+            sig = "other";
+        }
         _ => {}
     }
     let mut pad1 = vec![0u8; rng.below(40) as usize];
@@ -196,31 +227,58 @@ fn log_str(e: &[(char, String)]) -> String {
     }
 }
 
-/// remapped credential entries the COSE verifier logs (oracle facts by construction)
-fn sig_entries(made: &Made, trusted_list: Option<bool>) -> String {
-    if made.sigtype != "x509" {
-        return "-".into();
+/// How the shared COSE verification ends for this signature over this payload, and the statuses
+/// (C2PA codes) it logs — measured on `crypto::cose::Verifier`, configured as
+/// `validate_partial_claim` configures it from the `cawg_trust` settings.
+fn measure(payload: &SignerPayload, signature: &[u8], trusted_list: Option<bool>, cawg_root: &str) -> (&'static str, Vec<(char, String)>) {
+    let cbor = c2pa::verif_hooks::c33::signer_payload_cbor(payload);
+    let mut log = StatusTracker::default();
+    if parse_cose_sign1(signature, &cbor, &mut log).is_err() {
+        return ("parse", log_entries(&log));
     }
-    match made.sig {
-        "parse" => "f:cawg.x509.signature.mismatch".into(),
-        _ => match trusted_list {
-            None => "-".into(), // trust list not consulted
-            Some(true) => "s:cawg.x509.credential.trusted".into(),
-            Some(false) => "f:cawg.x509.credential.untrusted".into(),
-        },
-    }
+    let verifier = match trusted_list {
+        None => Verifier::IgnoreProfileAndTrustPolicy,
+        Some(with_anchor) => {
+            let mut ctp = CertificateTrustPolicy::default();
+            if with_anchor {
+                let _ = ctp.add_trust_anchors(cawg_root.as_bytes());
+            }
+            Verifier::VerifyTrustPolicy(std::borrow::Cow::Owned(ctp))
+        }
+    };
+    let mut log = StatusTracker::default();
+    let end = match verifier.verify_signature(signature, &cbor, &[], None, &mut log) {
+        Ok(_) => "ok",
+        Err(CoseError::RawSignatureValidationError(c2pa_raw_crypto::RawSignatureValidationError::SignatureMismatch)) => "mismatch",
+        Err(_) => "other",
+    };
+    (end, log_entries(&log))
 }
 
-fn request(op: &str, made: &Made, claim: &[HashedUri], trusted_list: Option<bool>) -> String {
+struct Facts {
+    sig: &'static str,
+    raw: String,
+}
+
+fn facts(payload: &SignerPayload, signature: &[u8], sigtype: &str, trusted_list: Option<bool>, cawg_root: &str) -> Facts {
+    if sigtype != "x509" {
+        return Facts { sig: "ok", raw: "-".into() };
+    }
+    let (sig, raw) = measure(payload, signature, trusted_list, cawg_root);
+    // a structure that does not parse: `parse_cose_sign1` logs its own code, the model knows it
+    Facts { sig, raw: if sig == "parse" { "-".into() } else { log_str(&raw) } }
+}
+
+fn request(op: &str, made: &Made, claim: &[HashedUri], f: &Facts) -> String {
     format!(
-        "C33 {op} refs={} claim={} sigtype={} pad1={} pad2={} sig={} sigentries={}",
+        "C33 {op} refs={} claim={} sigtype={} pad1={} pad2={} sig={} sigraw={}",
         uris_str(&made.payload.referenced_assertions),
         uris_str(claim),
         made.sigtype,
         hex(&made.pad1),
         made.pad2.as_ref().map(|p| hex(p)).unwrap_or("none".into()),
-        made.sig,
-        sig_entries(made, trusted_list)
+        f.sig,
+        f.raw
     )
 }
 
@@ -236,6 +294,82 @@ fn settings_json(anchors: &str, cawg_anchor: Option<bool>, cawg_root: &str) -> S
         Some(false) => v["cawg_trust"] = serde_json::json!({"verify_trust_list": true}),
     }
     v.to_string()
+}
+
+fn settings_nodecode(anchors: &str, cawg_anchor: Option<bool>, cawg_root: &str) -> String {
+    let mut v: serde_json::Value = serde_json::from_str(&settings_json(anchors, cawg_anchor, cawg_root)).unwrap();
+    v["core"]["decode_identity_assertions"] = serde_json::json!(false);
+    v.to_string()
+}
+
+fn block_on<F: std::future::Future>(f: F) -> F::Output {
+    tokio::runtime::Builder::new_current_thread().enable_all().build().expect("runtime").block_on(f)
+}
+
+/// the subject of an `e2ei` read is the identity-carrying asset itself iff its active manifest
+/// has a `cawg.identity` assertion
+fn pos_is_active(r: &Reader) -> bool {
+    r.active_manifest().map(|m| m.assertions().iter().any(|a| a.label().starts_with("cawg.identity"))).unwrap_or(false)
+}
+
+fn sc_str(sc: &StatusCodes) -> String {
+    let j = |v: &[c2pa::validation_status::ValidationStatus]| v.iter().map(|s| s.code().to_string()).collect::<Vec<_>>().join(",");
+    format!("{};{};{}", j(sc.success()), j(sc.informational()), j(sc.failure()))
+}
+
+/// `A=<s;i;f> D=<uri~s;i;f|…>` (the model's `baseStr`)
+fn results_str(r: &ValidationResults) -> String {
+    let a = r.active_manifest().map(sc_str).unwrap_or("-".into());
+    let d = match r.ingredient_deltas() {
+        None => "-".to_string(),
+        Some(v) if v.is_empty() => "[]".to_string(),
+        Some(v) => v.iter().map(|d| format!("{}~{}", d.ingredient_assertion_uri(), sc_str(d.validation_deltas()))).collect::<Vec<_>>().join("|"),
+    };
+    format!("A={a} D={d}")
+}
+
+/// entries present after post-validation that were not there before, with the bucket they are in
+/// (`None` = active manifest, `Some(uri)` = that ingredient's delta)
+fn added_entries(before: &ValidationResults, after: &ValidationResults) -> Vec<(Option<String>, (char, String))> {
+    fn flat(r: &ValidationResults) -> Vec<(Option<String>, (char, String))> {
+        let mut v = vec![];
+        let mut push = |u: Option<String>, sc: &StatusCodes| {
+            for (k, l) in [('s', sc.success()), ('i', sc.informational()), ('f', sc.failure())] {
+                for st in l {
+                    v.push((u.clone(), (k, st.code().to_string())));
+                }
+            }
+        };
+        if let Some(a) = r.active_manifest() {
+            push(None, a);
+        }
+        for d in r.ingredient_deltas().map(|d| d.as_slice()).unwrap_or(&[]) {
+            push(Some(d.ingredient_assertion_uri().to_string()), d.validation_deltas());
+        }
+        v
+    }
+    let mut old = flat(before);
+    let mut out = vec![];
+    for e in flat(after) {
+        if let Some(p) = old.iter().position(|o| *o == e) {
+            old.remove(p);
+        } else {
+            out.push(e);
+        }
+    }
+    out
+}
+
+/// The manifest became / is Invalid although only CAWG failures are present. `cawg.identity.*`
+/// codes: the known F13 class; only signature / credential (`cawg.x509.*`) codes: its own class.
+fn invalidated(run: &mut Run, i: usize, what: &str, cawg: &[(char, String)]) {
+    match cawg.iter().find(|e| e.0 == 'f' && !e.1.starts_with("cawg.x509.")) {
+        Some(w) => run.fail(i, "cawg-failure-invalidates-manifest", format!("{what}: manifest Invalid although the only failures are CAWG ones ({})", w.1)),
+        None => {
+            let w = cawg.iter().find(|e| e.0 == 'f').map(|e| e.1.clone()).unwrap_or_default();
+            run.fail(i, "cawg-x509-failure-invalidates-manifest", format!("{what}: manifest Invalid although the only failures are CAWG signature / credential ones ({w})"))
+        }
+    }
 }
 
 fn has_cawg_failure(e: &[(char, String)]) -> bool {
@@ -254,7 +388,8 @@ struct HarnessIdentity {
 /// what the dynamic assertion wrote (for the request line)
 #[derive(Clone)]
 struct Made2 {
-    refs: Vec<HashedUri>,
+    payload: SignerPayload,
+    signature: Vec<u8>,
     pad1: Vec<u8>,
     pad2: Option<Vec<u8>>,
     sig: &'static str,
@@ -305,7 +440,7 @@ impl DynamicAssertion for HarnessIdentity {
             return Err(c2pa::Error::BadParam(format!("size {} != {target}", out.len())));
         }
         *self.rec.lock().unwrap() = Some((
-            Made2 { refs: made.payload.referenced_assertions.clone(), pad1: p1, pad2: Some(p2), sig: made.sig, sigtype: made.sigtype },
+            Made2 { payload: made.payload.clone(), signature: made.signature.clone(), pad1: p1, pad2: Some(p2), sig: made.sig, sigtype: made.sigtype },
             claim_list,
         ));
         Ok(DynamicAssertionContent::Cbor(out))
@@ -354,7 +489,7 @@ fn holder_for(ee: &Cred, root: &Cred) -> X509CredentialHolder {
 }
 
 pub fn run(run: &mut Run, rng: &mut Rng) {
-    run.rule = "every case carries an identity assertion signed by the SDK's X509CredentialHolder; non-trivial = a mutated or unmodified assertion reaches validate_partial_claim; distinct by (level, mutation, reference set, trust setting)".to_string();
+    run.rule = "every case carries an identity assertion signed by the SDK's X509CredentialHolder; non-trivial = a mutated or unmodified assertion reaches validate_partial_claim (for e2ei: through CawgValidator, on results that were not Invalid before); distinct by (level, position active/ingredient, mutation, reference set, trust setting)".to_string();
     let thorough = run.thorough();
     let dir = scratch("c33");
     let pki = Pki::new(&dir);
@@ -369,6 +504,7 @@ pub fn run(run: &mut Run, rng: &mut Rng) {
     let holder = Arc::new(holder_for(&ee_id, &root_id));
 
     // ---- vpc
+    let mut seen_codes = std::collections::BTreeSet::<String>::new();
     let labels = ["c2pa.hash.data", "c2pa.actions.v2", "c2pa.thumbnail.claim.jpeg", "stds.schema-org.CreativeWork", "c2pa.hash.bmff.v3", "c2pa.ingredient.v3", "c2pa.metadata", "org.verif.x__1"];
     let rounds = if thorough { 40 } else { 6 };
     for round in 0..rounds {
@@ -399,7 +535,9 @@ pub fn run(run: &mut Run, rng: &mut Rng) {
                 }
                 let Some(made) = make(&holder, &claim, &pick, m, rng) else { continue };
                 let js = settings_json(&anchors, trusted, &id_root_pem);
-                let req = request("vpc", &made, &claim, trusted);
+                let f = facts(&made.payload, &made.signature, made.sigtype, trusted, &id_root_pem);
+                let built_for = made.sig;
+                let req = request("vpc", &made, &claim, &f);
                 let (payload, signature, pad1, pad2, claim2) = (made.payload.clone(), made.signature.clone(), made.pad1.clone(), made.pad2.clone(), claim.clone());
                 let out = guarded(move || {
                     let ctx = Context::new().with_settings(js.as_str()).expect("settings");
@@ -417,6 +555,19 @@ pub fn run(run: &mut Run, rng: &mut Rng) {
                     Ok((ok, entries)) => {
                         let i = run.case(req, format!("{} log={}", if ok { "ok" } else { "err" }, log_str(&entries)));
                         run.nontrivial(format!("vpc:{m:?}:{round}:{trusted:?}"));
+                        if made.sigtype == "x509" && f.sig != built_for {
+                            run.fail(i, "cose-oracle-inconsistent", format!("{m:?}: built to end in `{built_for}`, the COSE verifier ends in `{}`", f.sig));
+                        }
+                        for e in &entries {
+                            seen_codes.insert(e.1.clone());
+                            // nothing the identity validation logs keeps a C2PA code
+                            if !e.1.starts_with("cawg.") {
+                                run.fail(i, "cawg-cose-code-unmapped", format!("{m:?}: validate_partial_claim logged the C2PA code {} (not remapped)", e.1));
+                            }
+                        }
+                        for e in f.raw.split(',').filter(|x| *x != "-") {
+                            seen_codes.insert(e[2..].to_string());
+                        }
                         if m == Mutn::None {
                             if !ok || !entries.iter().any(|e| e.1 == "cawg.identity.well-formed") {
                                 run.fail(i, "cawg-valid-rejected", format!("unmodified identity assertion did not validate: {entries:?}"));
@@ -450,7 +601,9 @@ pub fn run(run: &mut Run, rng: &mut Rng) {
             Ok::<_, String>((state, entries))
         })
     };
-    let e2e_muts: Vec<Mutn> = if thorough { ALL.to_vec() } else { vec![Mutn::None, Mutn::RefHash, Mutn::Duplicate, Mutn::NoHardBinding, Mutn::SigTypeOther, Mutn::SigFlip, Mutn::Pad1, Mutn::Pad2, Mutn::RolesAfterSign] };
+    let e2e_muts: Vec<Mutn> = if thorough { ALL.to_vec() } else { vec![Mutn::None, Mutn::RefHash, Mutn::Duplicate, Mutn::NoHardBinding, Mutn::SigTypeOther, Mutn::SigFlip, Mutn::SigNoCerts, Mutn::Pad1, Mutn::Pad2, Mutn::RolesAfterSign] };
+    // mutations also placed inside an ingredient's manifest (and post-validated with CawgValidator)
+    let ingredient_muts: Vec<Mutn> = if thorough { ALL.to_vec() } else { vec![Mutn::None, Mutn::RefHash, Mutn::SigFlip, Mutn::SigNoCerts, Mutn::Pad1] };
     for m in e2e_muts {
         let rec = Arc::new(Mutex::new(None));
         let signer = IdSigner { inner: c2pa_signer(&ee_claim, &root_a), holder: holder.clone(), mutn: m, seed: rng.next(), rec: rec.clone() };
@@ -477,23 +630,27 @@ pub fn run(run: &mut Run, rng: &mut Rng) {
         for trusted in [Some(true), Some(false)] {
             let out = read(asset.clone(), settings_json(&anchors, trusted, &id_root_pem));
             run.count(&format!("e2e:{m:?}"));
-            let made = Made { payload: SignerPayload { referenced_assertions: made2.refs.clone(), sig_type: String::new(), roles: vec![] }, signature: vec![], pad1: made2.pad1.clone(), pad2: made2.pad2.clone(), sig: made2.sig, sigtype: made2.sigtype };
+            let made = Made { payload: made2.payload.clone(), signature: made2.signature.clone(), pad1: made2.pad1.clone(), pad2: made2.pad2.clone(), sig: made2.sig, sigtype: made2.sigtype };
+            let f = facts(&made.payload, &made.signature, made.sigtype, trusted, &id_root_pem);
             match out {
                 Err(p) => {
-                    let i = run.case(request("e2e", &made, &claim_list, trusted), "panic".into());
+                    let i = run.case(request("e2e", &made, &claim_list, &f), "panic".into());
                     run.fail(i, "panic", p);
                 }
                 Ok(Err(e)) => {
-                    let i = run.case(request("e2e", &made, &claim_list, trusted), "read-error".into());
+                    let i = run.case(request("e2e", &made, &claim_list, &f), "read-error".into());
                     run.fail(i, "read-error", e);
                 }
                 Ok(Ok((state, entries))) => {
                     let mut cawg: Vec<(char, String)> = entries.iter().filter(|e| e.1.starts_with("cawg.")).cloned().collect();
                     cawg.sort_by_key(|e| format!("{}:{}", e.0, e.1));
                     let rest: Vec<(char, String)> = entries.iter().filter(|e| !e.1.starts_with("cawg.")).cloned().collect();
-                    let req = format!("{} rest={}", request("e2e", &made, &claim_list, trusted), log_str(&rest));
+                    let req = format!("{} rest={}", request("e2e", &made, &claim_list, &f), log_str(&rest));
                     let i = run.case(req, format!("{state} log={}", log_str(&cawg)));
                     run.nontrivial(format!("e2e:{m:?}:{trusted:?}"));
+                    for e in &entries {
+                        seen_codes.insert(e.1.clone());
+                    }
                     let other_failures = rest.iter().any(|e| e.0 == 'f' && e.1 != "signingCredential.untrusted");
                     if m == Mutn::None {
                         if !cawg.iter().any(|e| e.1 == "cawg.identity.well-formed") {
@@ -504,12 +661,206 @@ pub fn run(run: &mut Run, rng: &mut Rng) {
                         run.fail(i, class, format!("{m:?}: no cawg failure code in the report ({cawg:?})"));
                     }
                     if state == "invalid" && !other_failures && has_cawg_failure(&cawg) {
-                        let worst = cawg.iter().find(|e| e.0 == 'f' && !e.1.starts_with("cawg.x509.")).or(cawg.iter().find(|e| e.0 == 'f')).map(|e| e.1.clone()).unwrap_or_default();
-                        run.fail(i, "cawg-failure-invalidates-manifest", format!("{m:?}: manifest Invalid although the only failures are CAWG ones ({worst})"));
+                        invalidated(run, i, &format!("{m:?} (active manifest)"), &cawg);
+                    }
+                }
+            }
+        }
+
+        // ---- the same asset validated by `Reader::post_validate_async(&CawgValidator)`:
+        // as it is (statuses go to the active manifest) and as an ingredient of a second asset B
+        // (statuses carry the ingredient URI and go to that ingredient's delta)
+        let made = Made { payload: made2.payload.clone(), signature: made2.signature.clone(), pad1: made2.pad1.clone(), pad2: made2.pad2.clone(), sig: made2.sig, sigtype: made2.sigtype };
+        let mut subjects: Vec<(&str, Vec<u8>)> = vec![("active", asset.clone())];
+        if ingredient_muts.contains(&m) {
+            for rel in if thorough { vec!["componentOf", "parentOf"] } else { vec!["componentOf"] } {
+                let inner = asset.clone();
+                let src2 = src.clone();
+                let signer = c2pa_signer(&ee_claim, &root_a);
+                let js_b = settings_nodecode(&anchors, Some(true), &id_root_pem);
+                let rel2 = rel.to_string();
+                let built = guarded(std::panic::AssertUnwindSafe(move || {
+                    let ctx = Context::new().with_settings(js_b.as_str()).map_err(|e| format!("{e:?}"))?.with_signer(signer);
+                    let mut b = Builder::from_context(ctx).with_definition(definition("c33-outer", "image/jpeg").as_str()).map_err(|e| format!("{e:?}"))?;
+                    let ing = serde_json::json!({"title": "inner.jpg", "relationship": rel2}).to_string();
+                    b.add_ingredient_from_stream(ing, "image/jpeg", &mut Cursor::new(inner)).map_err(|e| format!("{e:?}"))?;
+                    let mut out = Cursor::new(Vec::new());
+                    b.save_to_stream("image/jpeg", &mut Cursor::new(src2), &mut out).map_err(|e| format!("{e:?}"))?;
+                    Ok::<_, String>(out.into_inner())
+                }));
+                match built {
+                    Ok(Ok(b)) => subjects.push((rel, b)),
+                    other => run.notes.push(format!("e2ei {m:?}/{rel}: building the outer asset failed: {:?}", other.map(|r| r.map(|_| ()).err()))),
+                }
+            }
+        }
+        for (pos, subject) in subjects {
+            for trusted in [Some(true), Some(false)] {
+                let js = settings_nodecode(&anchors, trusted, &id_root_pem);
+                let subject2 = subject.clone();
+                let out = guarded(move || {
+                    let ctx = Context::new().with_settings(js.as_str()).expect("settings");
+                    let vctx = Context::new().with_settings(js.as_str()).expect("settings");
+                    let mut r = Reader::from_context(ctx).with_stream("image/jpeg", Cursor::new(subject2)).map_err(|e| format!("{e:?}"))?;
+                    let before = r.validation_results().cloned().unwrap_or_default();
+                    let iuri = if pos_is_active(&r) {
+                        None
+                    } else {
+                        let label = r.active_label().unwrap_or("-").to_string();
+                        let ing = r.active_manifest().and_then(|m| m.ingredients().first()).and_then(|i| i.label()).unwrap_or("unknown").to_string();
+                        Some(format!("self#jumbf=/c2pa/{label}/c2pa.assertions/{ing}"))
+                    };
+                    block_on(r.post_validate_async(&CawgValidator::new(&vctx))).map_err(|e| format!("{e:?}"))?;
+                    let after = r.validation_results().cloned().unwrap_or_default();
+                    let state = format!("{:?}", after.validation_state()).to_lowercase();
+                    let reader_state = format!("{:?}", r.validation_state()).to_lowercase();
+                    Ok::<_, String>((before, after, state, reader_state, iuri))
+                });
+                run.count(&format!("e2ei:{pos}:{m:?}"));
+                let f = facts(&made.payload, &made.signature, made.sigtype, trusted, &id_root_pem);
+                let head = request("e2ei", &made, &claim_list, &f);
+                match out {
+                    Err(p) => {
+                        let i = run.case(head, "panic".into());
+                        run.fail(i, "panic", p);
+                    }
+                    Ok(Err(e)) => {
+                        let i = run.case(head, "read-error".into());
+                        run.fail(i, "read-error", e);
+                    }
+                    Ok(Ok((before, after, state, reader_state, iuri))) => {
+                        if (pos == "active") != iuri.is_none() {
+                            run.notes.push(format!("e2ei {m:?}/{pos}: unexpected store shape"));
+                            continue;
+                        }
+                        let req = format!("{head} iuri={} {}", iuri.clone().unwrap_or("-".into()), results_str(&before));
+                        let i = run.case(req, format!("{state} {}", results_str(&after)));
+                        let before_state = format!("{:?}", before.validation_state()).to_lowercase();
+                        if before_state != "invalid" {
+                            run.nontrivial(format!("e2ei:{pos}:{m:?}:{trusted:?}"));
+                        }
+                        if reader_state != state {
+                            run.fail(i, "reader-state-stale", format!("Reader::validation_state() = {reader_state}, results say {state}"));
+                        }
+                        // what post-validation added, and where
+                        let added = added_entries(&before, &after);
+                        for (_, e) in &added {
+                            seen_codes.insert(e.1.clone());
+                        }
+                        let cawg: Vec<(char, String)> = added.iter().map(|x| x.1.clone()).filter(|e| e.1.starts_with("cawg.")).collect();
+                        if added.iter().any(|(u, _)| *u != iuri) {
+                            run.fail(i, "cawg-status-misplaced", format!("{m:?}/{pos}: statuses of the identity assertion were not recorded for {iuri:?}: {added:?}"));
+                        }
+                        if m == Mutn::None {
+                            if !cawg.iter().any(|e| e.1 == "cawg.identity.well-formed") {
+                                run.fail(i, "cawg-valid-rejected", format!("{pos}: unmodified identity assertion did not validate: {cawg:?}"));
+                            }
+                        } else if !has_cawg_failure(&cawg) {
+                            let class = if m == Mutn::SigTypeOther { "cawg-sigtype-unknown-unreported" } else { "cawg-change-unreported" };
+                            run.fail(i, class, format!("{m:?}/{pos}: no cawg failure code after post-validation ({cawg:?})"));
+                        }
+                        let non_cawg_failure_added = added.iter().any(|(_, e)| e.0 == 'f' && !e.1.starts_with("cawg."));
+                        if before_state != "invalid" && state == "invalid" && !non_cawg_failure_added {
+                            invalidated(run, i, &format!("{m:?} ({pos}, CawgValidator)"), &cawg);
+                        }
                     }
                 }
             }
         }
     }
+
+    // ---- "created by the SDK": the SDK's own IdentityAssertionBuilder / IdentityAssertionSigner
+    // assemble the assertion (references, hard binding, pads); it must validate, by the default
+    // Reader and by CawgValidator, and the parts it wrote go through the model like any other case
+    for (k, extra) in [(0usize, vec!["c2pa.actions.v2"]), (1, vec![]), (2, vec!["c2pa.actions.v2", "c2pa.thumbnail.claim", "org.verif.absent"])] {
+        if !thorough && k == 2 {
+            continue;
+        }
+        let raw = c2pa_raw_crypto::signer_from_private_key(&ee_claim.key_pem(), SigningAlg::Es256).expect("raw signer");
+        let mut ias = c2pa::identity::builder::IdentityAssertionSigner::new(raw, vec![ee_claim.cert_der(), root_a.cert_der()]);
+        let mut iab = c2pa::identity::builder::IdentityAssertionBuilder::for_credential_holder(holder_for(&ee_id, &root_id));
+        iab.add_referenced_assertions(&extra);
+        if k == 1 {
+            iab.add_roles(&["cawg.creator"]);
+        }
+        ias.add_identity_assertion(iab);
+        let js_sign = settings_json(&anchors, Some(true), &id_root_pem);
+        let src2 = src.clone();
+        let signed = guarded(std::panic::AssertUnwindSafe(move || {
+            let ctx = Context::new().with_settings(js_sign.as_str()).map_err(|e| format!("{e:?}"))?.with_signer(ias);
+            let mut b = Builder::from_context(ctx).with_definition(definition("c33-sdk", "image/jpeg").as_str()).map_err(|e| format!("{e:?}"))?;
+            let mut out = Cursor::new(Vec::new());
+            b.save_to_stream("image/jpeg", &mut Cursor::new(src2), &mut out).map_err(|e| format!("{e:?}"))?;
+            Ok::<_, String>(out.into_inner())
+        }));
+        let asset = match signed {
+            Ok(Ok(a)) => a,
+            other => {
+                run.notes.push(format!("sdk-built {k}: signing failed: {:?}", other.map(|r| r.map(|_| ()).err())));
+                run.obligations.insert(format!("sdk-built-identity-signs:{k}"), false);
+                continue;
+            }
+        };
+        // take the written assertion apart (read without decoding it)
+        let asset2 = asset.clone();
+        let js_nd = settings_nodecode(&anchors, Some(true), &id_root_pem);
+        let parts = guarded(move || {
+            let ctx = Context::new().with_settings(js_nd.as_str()).expect("settings");
+            let r = Reader::from_context(ctx).with_stream("image/jpeg", Cursor::new(asset2)).map_err(|e| format!("{e:?}"))?;
+            let m = r.active_manifest().ok_or("no active manifest")?;
+            let ma = m.assertions().iter().find(|a| a.label().starts_with("cawg.identity")).ok_or("no identity assertion")?;
+            let ia: c2pa::identity::IdentityAssertion = ma.to_assertion().map_err(|e| format!("{e:?}"))?;
+            let claim: Vec<HashedUri> = m.assertion_references().cloned().collect();
+            Ok::<_, String>((c2pa::verif_hooks::c33::assertion_parts(&ia), claim))
+        });
+        let ((payload, signature, pad1, pad2), claim_list) = match parts {
+            Ok(Ok(p)) => p,
+            other => {
+                run.notes.push(format!("sdk-built {k}: cannot take the assertion apart: {:?}", other.map(|r| r.map(|_| ()).err())));
+                run.obligations.insert(format!("sdk-built-identity-readable:{k}"), false);
+                continue;
+            }
+        };
+        let has_hb = payload.referenced_assertions.iter().any(|r| is_hard_binding(&r.url()));
+        let pads_zero = pad1.iter().all(|b| *b == 0) && pad2.as_ref().map(|p| p.iter().all(|b| *b == 0)).unwrap_or(true);
+        run.obligations.insert(format!("sdk-built-identity-has-hard-binding-and-zero-pads:{k}"), has_hb && pads_zero);
+        let made = Made { payload, signature, pad1, pad2, sig: "ok", sigtype: "x509" };
+        for trusted in [Some(true), Some(false)] {
+            let f = facts(&made.payload, &made.signature, made.sigtype, trusted, &id_root_pem);
+            let out = read(asset.clone(), settings_json(&anchors, trusted, &id_root_pem));
+            run.count("e2e:sdk-built");
+            match out {
+                Ok(Ok((state, entries))) => {
+                    let mut cawg: Vec<(char, String)> = entries.iter().filter(|e| e.1.starts_with("cawg.")).cloned().collect();
+                    cawg.sort_by_key(|e| format!("{}:{}", e.0, e.1));
+                    let rest: Vec<(char, String)> = entries.iter().filter(|e| !e.1.starts_with("cawg.")).cloned().collect();
+                    let req = format!("{} rest={}", request("e2e", &made, &claim_list, &f), log_str(&rest));
+                    let i = run.case(req, format!("{state} log={}", log_str(&cawg)));
+                    run.nontrivial(format!("e2e:sdk-built:{k}:{trusted:?}"));
+                    let only_trust = cawg.iter().all(|e| e.0 != 'f' || e.1 == "cawg.x509.credential.untrusted");
+                    if !cawg.iter().any(|e| e.1 == "cawg.identity.well-formed") || !only_trust || (trusted == Some(true) && has_cawg_failure(&cawg)) {
+                        run.fail(i, "cawg-valid-rejected", format!("identity assertion created by the SDK did not validate: {cawg:?}"));
+                    }
+                    if state == "invalid" {
+                        run.fail(i, "cawg-valid-rejected", format!("asset with an SDK-created identity assertion is Invalid: {entries:?}"));
+                    }
+                }
+                other => {
+                    let i = run.case(request("e2e", &made, &claim_list, &f), "read-error".into());
+                    run.fail(i, "read-error", format!("{other:?}"));
+                }
+            }
+        }
+    }
+
+    // ---- the remap is applied once: every `cawg.*` code the run observed (i.e. after the remap)
+    // is a fixed point of the model's remap function; and none of the C2PA codes the COSE verifier
+    // logged (before the remap) survives into a report of the identity validation.
+    let raw_seen: Vec<String> = seen_codes.iter().filter(|c| !c.starts_with("cawg.")).cloned().collect();
+    for c in seen_codes.iter().filter(|c| c.starts_with("cawg.")) {
+        run.case(format!("C33 remap c={c}"), c.to_string());
+        run.count("remap:fixed-point");
+    }
+    run.notes.push(format!("C2PA codes seen from the COSE verifier (before the remap) or among the C2PA checks: {raw_seen:?}"));
     let _ = std::fs::remove_dir_all(&dir);
 }
